@@ -345,9 +345,15 @@ theorem infoTlvIter_of_tlvLoop {bs : Bytes} (f p : Nat) (hp : p ≤ bs.length) (
             dsimp only
             generalize htlv : List.take (p + 4 + beAt bs (p + 2) 2 - p) (List.drop p bs) = tlv
             have htl : tlv.length = 4 + beAt bs (p + 2) 2 := by subst htlv; simp; omega
-            rw [rdBE_ok (by omega), sliceFrom_ok (by omega)]
+            have hlen2 : beAt tlv 2 2 = beAt bs (p + 2) 2 := by
+              subst htlv
+              simp only [beAt, List.drop_take, List.take_take, List.drop_drop]
+              congr 2
+              omega
+            rw [rdBE_ok (by omega), rdBE_ok (a := 2) (n := 2) (by omega), sliceFrom_ok (by omega)]
             dsimp only
-            have : p + beAt bs (p + 2) 2 + 4 = p + 2 + 2 + beAt bs (p + 2) 2 := by omega
+            rw [hlen2]
+            have : p + (beAt bs (p + 2) 2 + 4) = p + 2 + 2 + beAt bs (p + 2) 2 := by omega
             rw [this, hl]
             exact ⟨_, rfl⟩
           | err => simp [h3] at h
